@@ -93,6 +93,8 @@ def model (line : String) : String :=
 
 def monitor (op obs : String) : String :=
   let o := splitWs obs
+  if obs.startsWith "PANIC" then "FAIL implementation-panicked" else
+  if obs = "HANG" then "FAIL implementation-hung" else
   match splitWs op with
   | ["final", _n, _quorum, sel, operating, _seed] =>
     if obs = "err:invalid" then "ok" else
